@@ -1317,6 +1317,8 @@ def mk_ind(c):
 
 
 VARBOUND = {}     # index symbol name -> exclusive upper bound (set when index variables are created)
+EXTENDED = set()  # names of scalar symbols that may denote +-inf (np.isfinite on them is an undetermined condition)
+
 PRODUCTS = []     # ordered pairs (major, minor) of dimension terms whose product is a row-major compound axis
 
 
@@ -1627,7 +1629,7 @@ def _evala(a, env, bvs):
         f = env.funcs.get(a.args[0])
         if f is None:
             if env.default:
-                return env.default("app", a.args[0], tuple(args))
+                return env.default("app:int" if a.sort == "int" else "app", a.args[0], tuple(args))
             raise KeyError(a.args[0])
         return f(*[int(round(v)) if float(v).is_integer() else v for v in args])
     if k in BINDERS and k != "lam":
